@@ -7,6 +7,7 @@ import (
 	"sort"
 	"strconv"
 	"strings"
+	"sync"
 	"time"
 
 	"golang.org/x/exp/rand"
@@ -19,6 +20,24 @@ func getSource() *rand.PCGSource {
 }
 
 var randSource = getSource()
+
+// randSourceMu 保护包级随机源: 未设置种子的 Context 都从它取数，可能来自不同的 goroutine
+var randSourceMu sync.Mutex
+
+// lockedGlobalSource 是包级随机源的加锁视图(rand.Source)
+type lockedGlobalSource struct{}
+
+func (lockedGlobalSource) Uint64() uint64 {
+	randSourceMu.Lock()
+	defer randSourceMu.Unlock()
+	return randSource.Uint64()
+}
+
+func (lockedGlobalSource) Seed(seed uint64) {
+	randSourceMu.Lock()
+	defer randSourceMu.Unlock()
+	randSource.Seed(seed)
+}
 
 func _roll32(src *rand.PCGSource, dicePoints int) int {
 	// 注: int的长度至少为32位，也可以高于此数，此处只是当作32位处理
@@ -75,6 +94,8 @@ func Roll(src *rand.PCGSource, dicePoints IntType, mod int) IntType {
 		return dicePoints
 	}
 	if src == nil {
+		randSourceMu.Lock()
+		defer randSourceMu.Unlock()
 		src = randSource
 	}
 
